@@ -308,7 +308,7 @@ def r03_2(ctx) -> None:
                     ctx.fail("R03.2", u, f"{kind} ... in {norm(n.info.get('iter'))}",
                              f"iterable parameter is iterated directly with `{kind}`: only one of the sync / async "
                              f"protocols is supported instead of both", node=n)
-            if n.kind == "call" and _builtin_consumer(ctx, u, n):
+            if n.kind == "call" and u.short not in DIRECT_ITERATION_OK and _builtin_consumer(ctx, u, n):
                 args = [a.value if isinstance(a, ast.Starred) else a for a in n.ast.args]  # type: ignore[union-attr]
                 if any(any(x[0] == "user" and x[1] in srcs for x in ctx.vals.expr(u, a, n)) for a in args):
                     bad += 1
